@@ -397,7 +397,7 @@ def r1(ctx):
     ctx.note("entry bodies %d (from %d tokio::spawn sites); reachable local bodies %d; external callees trusted not to panic %d; asserts %d; panic-API calls %d" % (len(roots), len(spawn_sites), len(local), len(ext), n_assert, n_api))
     for k in sorted(set(reviewed) - used):
         ctx.note("stale reviewed entry: %s" % (k,))
-    if n_assert < 120 or n_api < 40:
+    if n_assert < 90 or n_api < 35:
         raise AnchorError("census too small: %d asserts, %d panic-API calls" % (n_assert, n_api))
 
 
